@@ -362,17 +362,20 @@ Definition cal_outs (old new : list shutter) : list out :=
                  else [Cal k (r_t1 b) (r_t2 b) (r_aco b) (r_acc b) (r_pos b) (r_tlt b) (r_step b)])
               (combine (map Z.of_nat (seq 0 (length old))) (combine old new))).
 
+(* what supla_esp_channel_set_value does to the addressed shutter: times from DurationMS, then a position task
+   (no synchronous effect on calibration data) or a relay command (aborts a running auto-calibration) *)
+Definition sv_close_time (dur : Z) : Z := Z.land dur 65535 * 100.
+Definition sv_open_time (dur : Z) : Z := Z.land (Z.shiftr dur 16) 65535 * 100.
+Definition sv_is_position (v : Z) : bool := let sv := s8 v in ((10 <=? sv) && (sv <=? 110)) || (sv =? -1).
+Definition sv_shutter (r : shutter) (dur v : Z) : shutter :=
+  let r1 := apply_new_times r (sv_close_time dur) (sv_open_time dur) in
+  if sv_is_position v then r1 else set_relay_abort r1.
 (* supla_esp_channel_set_value, roller-shutter branch (relays are not part of this model) *)
 Definition set_value (s : st) (ch dur v : Z) : st * list out :=
   match find_rs (rss s) ch 0 with
   | None => (s, [])
   | Some (k, r) =>
-      let ct := Z.land dur 65535 * 100 in
-      let ot := Z.land (Z.shiftr dur 16) 65535 * 100 in
-      let r1 := apply_new_times r ct ot in
-      let sv := s8 v in
-      let r2 := if ((10 <=? sv) && (sv <=? 110)) || (sv =? -1) then r1 else set_relay_abort r1 in
-      let s' := with_rss s (setn (rss s) k r2) in
+      let s' := with_rss s (setn (rss s) k (sv_shutter r dur v)) in
       (s', cal_outs (rss s) (rss s') ++ [CfgFlash 1 1 (blank s)])
   end.
 
@@ -480,7 +483,12 @@ Definition boot (b32 blnk flashcfg : Z) (ins : list input) (rs : list shutter) :
                                                                    i_atcap := i_atcap x; i_at := 0; i_maxc := 0; i_last := STATE_INACTIVE; i_cnt := 0;
                                                                    i_lsc := 0; i_armed := false; i_adv := false |} (i_at x)) ins;
               (* gpio_init: tilt := -1 because the tilting time (Time3) of the stored image is 0 *)
-              rss := map (fun r => set_cal r (r_t1 r) (r_t2 r) (r_aco r) (r_acc r) (r_pos r) (-1) 0 false) rs |} in
+              (* a blank flash (first boot) means factory defaults: no stored times, no tilt type *)
+              rss := map (fun r => if flashcfg =? 0
+                                   then {| r_ex := r_ex r; r_ch := r_ch r; r_flags := r_flags r; r_regflags := r_regflags r; r_tiltt := 0;
+                                           r_upg := r_upg r; r_dng := r_dng r; r_t1 := 0; r_t2 := 0; r_aco := 0; r_acc := 0; r_pos := 0;
+                                           r_tlt := -1; r_step := 0; r_abr := false |}
+                                   else set_cal r (r_t1 r) (r_t2 r) (r_aco r) (r_acc r) (r_pos r) (-1) 0 false) rs |} in
   let o0 := if flashcfg =? 0 then [Factory] else [] in
   let o9 := if flashcfg =? 0 then [CfgFlash 1 1 15] else [] in
   if incomplete b then let '(s1, o) := cfgmode_start s in (s1, o0 ++ o ++ o9) else (s, o0 ++ o9).
